@@ -151,12 +151,45 @@ def dist_build(verbose=True):
             res["build_s"] = round(time.time() - t0, 2)
             _cache["res"] = res
             return res
-    # ---- cold build -----------------------------------------------------
+    # ---- cold build (one at a time: C18 and C19 may start together) --------
+    import fcntl
+    os.makedirs(BUILD, exist_ok=True)
+    lockf = open(os.path.join(BUILD, "cmake-dist.lock"), "w")
+    fcntl.flock(lockf, fcntl.LOCK_EX)
+    try:
+        if os.path.exists(stamp):  # built by the other process meanwhile
+            res = json.load(open(stamp))
+            if all(os.path.exists(l) for l in res["libs"]):
+                res["cold"] = False
+                res["build_s"] = round(time.time() - t0, 2)
+                _cache["res"] = res
+                return res
+        return _cold_build(hh, bdir, stamp, t0, verbose)
+    finally:
+        fcntl.flock(lockf, fcntl.LOCK_UN)
+        lockf.close()
+
+
+def _prune(keep):
+    """Remove build trees of older /repo states (keep the two newest besides
+    the current one)."""
+    try:
+        ds = [os.path.join(BUILD, d) for d in os.listdir(BUILD)
+              if d.startswith("cmake-dist-") and
+              os.path.isdir(os.path.join(BUILD, d)) and
+              os.path.join(BUILD, d) != keep]
+        ds.sort(key=lambda d: os.path.getmtime(d), reverse=True)
+        for d in ds[2:]:
+            shutil.rmtree(d, ignore_errors=True)
+    except OSError:
+        pass
+
+
+def _cold_build(hh, bdir, stamp, t0, verbose):
     os.makedirs(TMP, exist_ok=True)
     tmpd = os.path.join(TMP, "distbuild-tmp-%d" % os.getpid())
     os.makedirs(tmpd, exist_ok=True)
     env = dict(os.environ, TMPDIR=tmpd, TMP=tmpd, TEMP=tmpd)
-    part = bdir + ".partial-%d" % os.getpid()
     # build in the final location (CMake caches absolute paths); a failed or
     # interrupted build has no stamp and is rebuilt from scratch next time
     if os.path.exists(bdir):
@@ -206,6 +239,7 @@ def dist_build(verbose=True):
     os.replace(stamp + ".tmp", stamp)
     res = dict(res, cold=True, build_s=round(time.time() - t0, 2))
     _cache["res"] = res
+    _prune(bdir)
     if verbose:
         print("# distbuild: cold build done in %.1fs (configure %.1fs, "
               "compile %.1fs)" % (res["build_s"], res["configure_s"],
